@@ -925,7 +925,7 @@ def render(T):
     A("")
     A("/-- one row of `detect::KNOWN_PIXEL_FORMATS` (helper functions and `with_flags` already applied) -/")
     A("structure MaskRow where")
-    A("  flags : Nat\n  bitCount : Nat\n  r : Nat\n  g : Nat\n  b : Nat\n  a : Nat\n  dxgi : Option Nat\n  fmt : Format")
+    A("  flags : Nat\n  bitCount : Nat\n  r : Nat\n  g : Nat\n  b : Nat\n  a : Nat\n  dxgi : Option Nat\n  fmt : Format\nderiving Repr, Inhabited")
     A("")
     A("/-- `detect::KNOWN_PIXEL_FORMATS` in table order -/")
     A("def knownPixelFormats : List MaskRow := [")
@@ -939,7 +939,7 @@ def render(T):
     A("/-- one row per NAMED `DxgiFormat` constant (`define_dxgi_formats!`): `PixelInfo::try_from`, `to_linear`,")
     A("`has_alpha`, `detect::dxgi_format_to_supported` -/")
     A("structure DxgiRow where")
-    A("  code : Nat\n  name : String\n  px : Option PixelInfo\n  linear : Nat\n  hasAlpha : Bool\n  supported : Option Format")
+    A("  code : Nat\n  name : String\n  px : Option PixelInfo\n  linear : Nat\n  hasAlpha : Bool\n  supported : Option Format\nderiving Repr, Inhabited")
     A("")
     A("def dxgiNamed : List DxgiRow := [")
     rows = []
